@@ -244,3 +244,5 @@ if os.path.exists(_fl):
     for _p, _v in _floors.items():
         if _p in PROPERTIES:
             PROPERTIES[_p]["floors"] = _v
+            # the complete list of rules evaluated for the property (hand-written summary first, then every rule with its one-line meaning)
+            PROPERTIES[_p]["decides"] = ["%s — %s" % (r, RULE_DOC.get(r, "")) for r in sorted(_v)]
